@@ -135,6 +135,56 @@ def exhaustive_1d(maxlen=6, rng=8, steps=3, masklen=5, mrng=4, iadd=True, conver
 
 
 # ----------------------------------------------------------------------------------------------
+# component arrays of vector arrays (`.x .y .z .w`, `.r .g .b .a`, quaternion `.r .x .y .z`, box `.min .max`)
+
+def wide_cells(n, w, off=10):
+    """element i has components off+i, off+i+20, off+i+40, ... (distinct, small)"""
+    return [off + i + 20 * k for i in range(n) for k in range(w)]
+
+
+def exhaustive_comp(w, maxlen=4, iadd=True, full=True):
+    """every component k < w of: the dense array, EVERY masked reference of it (all 0/1 masks), a handle copy;
+    reads with every int index, writes (int, slice, mask, vector, in-place) THROUGH the component array — the
+    storage dump shows where they land — and read-only propagation (array made read-only before / after)."""
+    for n in range(maxlen + 1):
+        cells = wide_cells(n, w)
+        for k in range(w):
+            p = ["allocw %d %s" % (w, vals(cells)), "comp 0 %d" % k, "len 1"]
+            p += ["getitem 1 %d" % i for i in range(-n - 1, n + 1)]
+            p += ["setscalar 1 i:%d 7" % i for i in range(n)]
+            p += ["setscalar 1 s:N:N:2 5", "getslice 1 s:N:N:-1", "copy 0", "comp 3 %d" % k, "setscalar 4 s:N:N:N 3", "getitem 0 0"]
+            if iadd:
+                p += ["iadds 1 2", "allocc " + vals(base_vals(n, 1)), "iaddv 1 5"]
+            yield "comp-dense", p
+        for bits in itertools.product((0, 1), repeat=n):
+            cnt = sum(bits)
+            for k in (range(w) if full or cnt in (1, 2) else (w - 1,)):
+                # views: 0 wide 1 mask 2 masked reference 3 its component array 4 data(cnt)
+                p = ["allocw %d %s" % (w, vals(cells)), "alloci " + vals(bits), "getmask 0 1", "comp 2 %d" % k, "len 3"]
+                p += ["getitem 3 %d" % i for i in range(-cnt - 1, cnt + 1)]
+                p += ["allocc " + vals(base_vals(cnt, 60)), "setvector 3 s:N:N:N 4"]
+                p += ["setscalar 3 i:%d %d" % (i, 70 + i) for i in range(cnt)]
+                p += ["setscalar 3 s:N:N:-1 8", "getslice 3 s:N:N:N", "comp 0 %d" % k, "getitem 6 0", "copy 3", "len 7"]
+                if iadd:
+                    p += ["iadds 3 1", "iaddv 3 4"]
+                p += ["getitem 0 %d" % i for i in range(n)]
+                yield "comp-masked", p
+                # read-only: the component array of a read-only array / masked reference must refuse every write
+                ro = ["allocw %d %s" % (w, vals(cells)), "alloci " + vals(bits), "ro 0", "getmask 0 1", "comp 0 %d" % k,
+                      "comp 2 %d" % k, "allocc " + vals(base_vals(cnt, 60)), "allocc " + vals(base_vals(n, 60))]
+                # views: 3 comp of the read-only array, 4 comp of its masked reference, 5 data(cnt), 6 data(n)
+                for mline in ["setscalar 3 i:0 1", "setscalar 3 s:N:N:N 1", "setvector 3 s:N:N:N 6", "setscalarmask 3 1 1",
+                              "setscalar 4 i:0 1", "setscalar 4 s:N:N:N 1", "setvector 4 s:N:N:N 5"] + \
+                             (["iadds 3 1", "iaddv 3 6", "iadds 4 1", "iaddv 4 5"] if iadd else []):
+                    if full or k == w - 1:
+                        yield "comp-readonly", ro + [mline, "getitem 0 0"]
+        # a component array taken BEFORE makeReadOnly stays writable (documented aliasing, like any earlier view)
+        if n:
+            yield "comp-alias", ["allocw %d %s" % (w, vals(cells)), "comp 0 0", "ro 0", "setscalar 1 i:0 9", "getitem 0 0", "comp 0 0",
+                                 "setscalar 2 i:0 4"]
+
+
+# ----------------------------------------------------------------------------------------------
 # random op sequences
 
 MUT = ("setscalar", "setscalarmask", "setvector", "setvectormask", "iadds", "iaddv")
@@ -322,11 +372,18 @@ def exhaustive_2d(rng=4):
     for (lx, ly) in [(1, 1), (2, 2), (3, 1), (2, 3)]:
         bv = base_vals(lx * ly)
         for bits in itertools.product((0, 1), repeat=lx * ly):
-            yield "2d-mask", ["d2 alloc %d %d %s" % (lx, ly, vals(bv)), "d2 alloc %d %d %s" % (lx, ly, vals(bits)),
+            cnt = sum(bits)
+            yield "2d-mask", ["d2 alloc %d %d %s" % (lx, ly, vals(bv)), "d2 alloci %d %d %s" % (lx, ly, vals(bits)),
                               "d2 getmask 0 1", "d2 setscalarmask 0 1 77",
                               "d2 alloc %d %d %s" % (lx, ly, vals(base_vals(lx * ly, 40))), "d2 setvectormask 0 1 3",
                               "d2 alloc %d %d %s" % (lx + 1, ly, vals(base_vals((lx + 1) * ly, 40))),
-                              "d2 setvectormask 0 1 4", "d2 getmask 0 4"]
+                              "d2 setvectormask 0 1 4", "d2 alloci %d %d %s" % (lx + 1, ly, vals([1] * ((lx + 1) * ly))), "d2 getmask 0 5",
+                              # 1-D right-hand sides through a mask: full length, packed, wrong; ifelse; len; constructors
+                              "alloc " + vals(base_vals(lx * ly, 20)), "d2 set1dmask 0 1 0",
+                              "alloc " + vals(base_vals(cnt, 30)), "d2 set1dmask 0 1 1",
+                              "alloc " + vals(base_vals(lx * ly + cnt + 1, 30)), "d2 set1dmask 0 1 2", "d2 set1dmask 0 5 0",
+                              "d2 ifelses 0 1 5", "d2 ifelsev 0 1 3", "d2 ifelsev 0 1 4", "d2 ifelses 0 5 5", "d2 len 0",
+                              "d2 fill 9 %d %d" % (lx, ly), "d2 copy 0", "d2 setscalar 9 s:N:N:N s:N:N:N 3", "d2 len 8", "d2 item 0 0 0"]
 
 
 def exhaustive_matrix(rng=4):
@@ -335,7 +392,7 @@ def exhaustive_matrix(rng=4):
     sls = [(a, b, c) for a in bounds for b in bounds for c in stp]
     for (r, c) in [(0, 2), (1, 1), (2, 3), (3, 2), (4, 1)]:
         bv = base_vals(r * c)
-        p = ["m alloc %d %d %s" % (r, c, vals(bv))]
+        p = ["m alloc %d %d %s" % (r, c, vals(bv)), "m len 0"]
         for i in range(-r - 1, r + 1):
             p += ["m row 0 %d" % i]
         # write through the row views
@@ -353,6 +410,171 @@ def exhaustive_matrix(rng=4):
             # `m[i]` with an int resolves to the row overload (`m row`); `m[i] = x` is setitem_scalar
             yield "matrix-slice", ["m alloc %d %d %s" % (r, c, vals(bv)), "m setscalar 0 i:%d 9" % i,
                                    "alloc " + vals(base_vals(c, 50)), "m setvector 0 i:%d 0" % i]
+
+
+# ----------------------------------------------------------------------------------------------
+# FixedVArray (VIntArray, VFloatArray, VV2iArray, VV2fArray): nested lists
+
+def v_sizes(n):
+    return [(2 * i + 1) % 3 for i in range(n)]          # 1,0,2,1,0,... (empty rows included)
+
+
+def v_setup(n):
+    """`alloci sizes; v newsizes 0 5` then every element set to 10*(row+1)+column: VArray 0, 1-D array 0"""
+    sz = v_sizes(n)
+    p = ["alloci " + vals(sz), "v newsizes 0 5"]
+    for i, k in enumerate(sz):
+        p += ["v setelem 0 %d %d %d" % (i, j, 10 * (i + 1) + j) for j in range(k)]
+    return p, sz
+
+
+def exhaustive_varray(maxlen=4, rng=5, full=True):
+    steps = [None, 1, 2, 3, -1, -2]
+    bounds = [None] + list(range(-rng, rng + 1))
+    slices = [(a, b, c) for a in bounds for b in bounds for c in steps]
+    if not full:
+        slices = [x for i, x in enumerate(slices) if i % 7 == 0 or x[2] in (None, 2) and x[0] in (None, 1, -1) and x[1] in (None, -1, 3)]
+    for n in range(maxlen + 1):
+        setup, sz = v_setup(n)
+        # (a) int indices of any sign: rows, sizes, element writes through the row reference, constructors, len
+        p = list(setup) + ["v len 0"]
+        for i in range(-n - 1, n + 1):
+            p += ["v row 0 %d" % i, "v setelem 0 %d 0 7" % i, "v setelem 0 %d -1 8" % i, "v setelem 0 %d 2 9" % i,
+                  "v setsize 0 i:%d 1" % i]
+        p += ["v new %d" % n, "v newfill 3 %d" % n, "v copy 0", "v len 1", "v len 2", "v row 2 0", "v setelem 3 0 0 4", "v row 0 0"]
+        yield "varray-index", p
+        # `va.size[i]` / `va.size[mask]` in programs of their own (SizeHelper overload resolution)
+        yield "varray-size", list(setup) + ["v size 0 %d" % i for i in range(-n - 1, n + 1)]
+        # (b) every slice: rows, sizes, resize, one-row assignment (right / wrong length), array assignment (right / wrong)
+        for (a, b, c) in slices:
+            ks = list(range(n))[slice(a, b, c)]
+            k = len(ks)
+            s = sl(a, b, c)
+            l0 = sz[ks[0]] if ks else 0
+            # 1-D ids: 0 sizes 1 row(l0) 2 row(l0+1) 3 [2]*k 4 [1]*(k+1) 5 1..k ; VArrays: 0, 1 (k rows), 2 (k+1 rows)
+            p = list(setup) + ["alloc " + vals(base_vals(l0, 50)), "alloc " + vals(base_vals(l0 + 1, 60)),
+                               "alloci " + vals([2] * k), "alloci " + vals([1] * (k + 1)), "alloci " + vals(list(range(1, k + 1))),
+                               "v newsizes 3 7", "v newsizes 4 6",
+                               "v setrow 0 %s 1" % s, "v setrow 0 %s 2" % s, "v setvec 0 %s 1" % s, "v setvec 0 %s 2" % s,
+                               "v setsizevec 0 %s 5" % s, "v setsizevec 0 %s 4" % s, "v setsize 0 %s 1" % s, "v len 0",
+                               "v getslice 0 " + s, "v sizeslice 0 " + s]
+            yield "varray-slice", p
+        yield "varray-slice", list(setup) + ["v getslice 0 s:N:N:0", "v setsize 0 s:N:N:0 1"]
+        # (c) every 0/1 mask
+        for bits in itertools.product((0, 1), repeat=n):
+            cnt = sum(bits)
+            sel = [i for i in range(n) if bits[i]]
+            l0 = sz[sel[0]] if sel else 0
+            yield "varray-size", list(setup) + ["alloci " + vals(bits), "v getmask 0 1", "v sizemask 0 1"] + \
+                ["v size 1 %d" % i for i in range(cnt)] + ["alloci " + vals([1] * cnt), "v sizemask 1 2"]
+            p = list(setup) + ["alloci " + vals(bits), "v getmask 0 1", "v len 1"]
+            p += ["v row 1 %d" % i for i in range(-cnt - 1, cnt + 1)]
+            p += ["alloc " + vals(base_vals(l0, 50)), "v setrowmask 0 1 2",
+                  "alloci " + vals([2] * n), "v newsizes 3 7", "v setvecmask 0 1 2",       # same length
+                  "alloci " + vals([3] * cnt), "v newsizes 4 8", "v setvecmask 0 1 3",     # packed
+                  "alloci " + vals([1] * (n + cnt + 1)), "v newsizes 5 9", "v setvecmask 0 1 4",   # wrong
+                  "v setsizemask 0 1 1", "alloci " + vals(list(range(n))), "v setsizevecmask 0 1 6",
+                  "alloci " + vals(list(range(2, cnt + 2))), "v setsizevecmask 0 1 7", "v setsizevecmask 0 1 5",
+                  # through the masked reference: slices, element writes, resize, masks on masks
+                  "v getslice 1 s:N:N:N", "v getslice 1 s:1:N:2", "v sizeslice 1 s:N:N:N", "v setelem 1 0 0 4", "v setsize 1 s:N:N:N 2",
+                  # (`v sizeslice` made 1-D array 8) 9: a 2-element row, 10: a mask of the MASKED length
+                  "alloc " + vals(base_vals(2, 70)), "v setrow 1 s:N:N:N 9", "v setvec 1 s:N:N:N 3", "v getmask 1 1",
+                  "v setvecmask 1 1 2", "v setsizevecmask 1 1 6", "v setrowmask 1 1 9", "v setsizemask 1 1 3",
+                  "alloci " + vals([1] + [0] * (cnt - 1) if cnt else []), "v setsizemask 1 10 1", "v setrowmask 1 10 9",
+                  "v copy 1", "v len 0"]
+            yield "varray-mask", p
+            # wrong mask lengths
+            yield "varray-mask-mismatch", list(setup) + ["alloci " + vals(list(bits) + [1]), "v getmask 0 1",
+                                                         "v setsizemask 0 1 2", "alloc 5", "v setrowmask 0 1 2", "v copy 0",
+                                                         "v setvecmask 0 1 1", "v setsizevecmask 0 1 1"]
+            # (d) read-only: the array, a masked reference / handle copy derived from it — one attempt per program
+            ro = list(setup) + ["alloci " + vals(bits), "v ro 0", "v getmask 0 1", "v copy 0", "v getslice 0 s:N:N:N",
+                                "alloc " + vals(base_vals(l0, 50)), "alloci " + vals([2] * n), "v newsizes 3 7"]
+            # VArrays: 0 base(ro) 1 masked ref 2 handle copy 3 slice copy (writable) 4 data(n rows); 1-D: 1 mask 2 row data 3 sizes
+            for v in (0, 1, 2):
+                for mline in ["v setelem %d 0 0 1" % v, "v setrow %d s:N:N:N 2" % v, "v setrowmask %d 1 2" % v, "v setvec %d s:N:N:N 4" % v,
+                              "v setvecmask %d 1 4" % v, "v setsize %d s:N:N:N 3" % v, "v setsizemask %d 1 3" % v,
+                              "v setsizevec %d s:N:N:N 3" % v, "v setsizevecmask %d 1 3" % v]:
+                    yield "varray-readonly", ro + [mline, "v row 0 0"]
+            yield "varray-readonly", ro + ["v setsize 3 s:N:N:N 1", "v len 3"]
+    # (e) an exception raised in the middle of a write loop (row lengths differ)
+    yield "varray-partial", ["alloci 2,2,1,2", "v newsizes 0 5", "alloc 8,9", "v setrow 0 s:N:N:N 1", "v row 0 3",
+                             "alloci 1,1,1,1", "v setrowmask 0 2 1"]
+
+
+# ----------------------------------------------------------------------------------------------
+# StringArray / WstringArray: several arrays, each with its own string table (`sa` / `saw` ops)
+
+def string_programs(rng, count=150, wide=False, maxlen=4):
+    """slice / mask / array assignments between arrays whose tables interned the strings in DIFFERENT orders, `==`,
+    slices (fresh table), default construction, read-only; exhaustive masks for lengths <= maxlen + seeded random"""
+    pre = "saw" if wide else "sa"
+    pool = ["a", "b", "c", "dd", "e"]
+
+    def fill(aid, strs, order):
+        # element i receives strs[i], assigned in the given order: the table's index of a string depends on the order
+        return ["%s set %d i:%d %s" % (pre, aid, i, strs[i]) for i in order]
+    sls = [(None, None, None), (None, None, 2), (1, None, None), (None, -1, None), (None, None, -1), (-2, None, None),
+           (None, None, -2), (0, 0, None), (5, None, None), (None, None, 0)]
+    for n in range(maxlen + 1):
+        strs = [pool[i % len(pool)] for i in range(n)]
+        for (a, b, c) in sls:
+            k = len(range(n)[slice(a, b, c)]) if c != 0 else 0
+            src = [pool[(i + 2) % len(pool)] for i in range(k)]
+            p = ["%s new %d z" % (pre, n)] + fill(0, strs, range(n)) + \
+                ["%s new %d y" % (pre, k)] + fill(1, src, reversed(range(k))) + \
+                ["%s new %d y" % (pre, k + 1),
+                 "%s getslice 0 %s" % (pre, sl(a, b, c)), "%s setvec 0 %s 1" % (pre, sl(a, b, c)), "%s setvec 0 %s 2" % (pre, sl(a, b, c)),
+                 "%s set 0 %s q" % (pre, sl(a, b, c)), "%s eq 0 1" % pre, "%s ne 0 0" % pre, "%s eqs 0 q" % pre, "%s nes 0 zz" % pre,
+                 "%s len 0" % pre] + ["%s get 0 %d" % (pre, i) for i in range(-n - 1, n + 1)]
+            yield "string-slice", p
+        for bits in itertools.product((0, 1), repeat=n):
+            cnt = sum(bits)
+            m = vals(bits)
+            p = ["%s new %d z" % (pre, n)] + fill(0, strs, range(n)) + \
+                ["%s new %d x" % (pre, n)] + fill(1, [pool[(i + 1) % len(pool)] for i in range(n)], reversed(range(n))) + \
+                ["%s new %d w" % (pre, cnt)] + fill(2, [pool[(i + 3) % len(pool)] for i in range(cnt)], range(cnt)) + \
+                ["%s new %d v" % (pre, n + cnt + 1),
+                 "%s setvecmask 0 %s 1" % (pre, m), "%s setvecmask 0 %s 2" % (pre, m), "%s setvecmask 0 %s 3" % (pre, m),
+                 "%s setmask 0 %s q" % (pre, m), "%s setmask 0 %s q" % (pre, vals(list(bits) + [1])), "%s eq 0 1" % pre,
+                 "%s eq 0 3" % pre, "%s default %d" % (pre, n), "%s eqs 4 q" % pre, "%s setvec 4 s:N:N:N 0" % pre, "%s ne 4 0" % pre]
+            yield "string-mask", p
+            if not wide:
+                ro = ["%s new %d z" % (pre, n)] + fill(0, strs, range(n)) + ["%s new %d x" % (pre, n), "%s ro 0" % pre]
+                for w in ["set 0 s:N:N:N q", "set 0 i:0 q", "setmask 0 %s q" % m, "setvec 0 s:N:N:N 1", "setvecmask 0 %s 1" % m]:
+                    yield "string-readonly", ro + ["%s %s" % (pre, w), "%s eqs 0 q" % pre, "%s getslice 0 s:N:N:N" % pre, "%s set 2 s:N:N:N k" % pre]
+        yield "string-alias", ["%s new %d z" % (pre, n)] + fill(0, strs, range(n)) + ["%s setvec 0 s:N:N:-1 0" % pre, "%s len 0" % pre]
+    for _ in range(count):
+        n = rng.randint(0, 5)
+        p = ["%s new %d %s" % (pre, n, rng.choice(pool)), "%s new %d %s" % (pre, rng.randint(0, 5), rng.choice(pool))]
+        lens = [n, int(p[1].split()[2])]
+        for _ in range(rng.randint(3, 14)):
+            a = rng.randrange(len(lens)); b = rng.randrange(len(lens))
+            f = lambda: "N" if rng.random() < 0.4 else str(rng.randint(-6, 6))
+            ix = "i:%d" % rng.randint(-lens[a] - 1, lens[a]) if rng.random() < 0.4 else "s:%s:%s:%s" % (f(), f(), rng.choice(["N", "1", "2", "-1", "-2"]))
+            bits = vals([rng.randint(0, 1) for _ in range(lens[a] if rng.random() < 0.85 else lens[a] + 1)])
+            op = rng.choice(["set", "set", "setmask", "setvec", "setvec", "setvecmask", "getslice", "eq", "eqs", "get"])
+            if op == "set":
+                p.append("%s set %d %s %s" % (pre, a, ix, rng.choice(pool)))
+            elif op == "setmask":
+                p.append("%s setmask %d %s %s" % (pre, a, bits, rng.choice(pool)))
+            elif op == "setvec":
+                p.append("%s setvec %d %s %d" % (pre, a, ix, b))
+            elif op == "setvecmask":
+                p.append("%s setvecmask %d %s %d" % (pre, a, bits, b))
+            elif op == "getslice":
+                # (an int key returns a str, not an array)
+                ix = "s:%s:%s:%s" % (f(), f(), rng.choice(["N", "1", "2", "-1", "-2"]))
+                p.append("%s getslice %d %s" % (pre, a, ix))
+                t = ix.split(":"); g = lambda x: None if x == "N" else int(x)
+                lens.append(len(range(lens[a])[slice(g(t[1]), g(t[2]), g(t[3]))]))
+            elif op == "eq":
+                p.append("%s eq %d %d" % (pre, a, b))
+            elif op == "eqs":
+                p.append("%s eqs %d %s" % (pre, a, rng.choice(pool)))
+            else:
+                p.append("%s get %d %d" % (pre, a, rng.randint(-lens[a] - 1, lens[a])))
+        yield "string-random", p
 
 
 def write_stream(programs):
